@@ -174,6 +174,23 @@ pub fn cases() -> Vec<Case> {
         out.push(Case::new(format!("index drop mask={mask}")).ok("CREATE TABLE \"t\" (\"x\" integer, \"y\" text)").ok("CREATE INDEX \"i1\" ON \"t\" (\"x\")").ok(drop.clone()).ok(drop)
             .check("SELECT count(*) FROM pragma_index_list('t')", "[[0]]"));
     }
+    // builder state: an index handed over with .take() keeps its partial predicate and flags; a foreign key declared through the
+    // from_tbl / from_col / to_tbl / to_col wrappers, referenced side FIRST, keeps both sides
+    let idx = run(|| { let mut i = Index::create(); i.name("i1").table(a("t")).col(a("x")).unique().and_where(Expr::col(a("x")).gt(3)); let t = i.take(); t.to_string(SqliteQueryBuilder) });
+    if let Some(sql) = idx { out.push(Case::new("index take keeps predicate").ok("CREATE TABLE \"t\" (\"x\" integer, \"y\" text)").ok(sql)
+        .check("SELECT name, \"unique\", partial FROM pragma_index_list('t')", r#"[["i1",1,1]]"#)); }
+    let fk = run(|| { let mut f = ForeignKey::create(); f.to_tbl(a("p")).to_col(a("id")).from_tbl(a("t")).from_col(a("x")).on_delete(ForeignKeyAction::SetDefault);
+        Table::create().table(a("t")).col(ColumnDef::new(a("x")).integer().default(1)).foreign_key(&mut f).to_string(SqliteQueryBuilder) });
+    if let Some(sql) = fk { out.push(Case::new("foreign key wrappers, referenced side first").ok("CREATE TABLE \"p\" (\"id\" integer PRIMARY KEY)").ok(sql)
+        .check("SELECT \"table\", \"from\", \"to\", on_update, on_delete FROM pragma_foreign_key_list('t')", r#"[["p","x","id","NO ACTION","SET DEFAULT"]]"#)); }
+    for (k, act, txt) in [(0, ForeignKeyAction::Restrict, "RESTRICT"), (1, ForeignKeyAction::Cascade, "CASCADE"), (2, ForeignKeyAction::SetNull, "SET NULL"), (3, ForeignKeyAction::NoAction, "NO ACTION"), (4, ForeignKeyAction::SetDefault, "SET DEFAULT")] {
+        let sql = run(move || Table::create().table(a("t")).col(ColumnDef::new(a("x")).integer()).foreign_key(ForeignKey::create().from(a("t"), a("x")).to(a("p"), a("id")).on_delete(act.clone()).on_update(act)).to_string(SqliteQueryBuilder));
+        if let Some(sql) = sql { out.push(Case::new(format!("foreign key action {k}")).ok("CREATE TABLE \"p\" (\"id\" integer PRIMARY KEY)").ok(sql)
+            .check("SELECT on_update, on_delete FROM pragma_foreign_key_list('t')", format!("[[\"{txt}\",\"{txt}\"]]"))); }
+    }
+    // an index on a schema-qualified table is not SQLite syntax (`CREATE INDEX i ON s.t`): refused - or, if rendered, the engine must take it
+    let q = run(|| Index::create().name("i1").table((a("main"), a("t"))).col(a("x")).to_string(SqliteQueryBuilder));
+    if let Some(sql) = q { out.push(Case::new("index on a schema-qualified table").ok("CREATE TABLE \"t\" (\"x\" integer, \"y\" text)").ok(sql).check("SELECT name FROM pragma_index_list('t')", r#"[["i1"]]"#)); }
     // ---- 5. ALTER TABLE (one action per statement), RENAME TO, DROP TABLE
     let base = "CREATE TABLE \"t\" (\"x\" integer, \"y\" text)";
     let add = run(|| Table::alter().table(a("t")).add_column(ColumnDef::new(a("n")).string_len(10).not_null().default("v")).to_string(SqliteQueryBuilder));
